@@ -96,7 +96,8 @@ let run_rsub (input : Sexp.t) (impl : Sexp.t) : Verdict.t =
     cls = Printf.sprintf "ops%s_unsub%s_%s_%s" (if List.length ops < 10 then "lt10" else "ge10") (if nun = 0 then "0" else "some")
         (if List.exists (fun c -> trim_left c <> c) ids then "trimid" else "plainid") (if nonempty then "hit" else "nohit");
     model = Sexp.L [Sexp.L (Sexp.A "journal" :: List.map sx_cmd mjournal);
-                    Sexp.L (Sexp.A "reload" :: sx_bool merr :: sx_int mcur :: List.map S_sub.sx_ires mres)] }
+                    Sexp.L (Sexp.A "reload" :: sx_bool merr :: sx_int mcur :: List.map S_sub.sx_ires mres)];
+    why = (if oracle then "" else if not live.Verdict.oracle then "live_store" else if ierr then "reload_failed" else "reloaded_store_differs_from_spec") }
 
 (* ---- runack ---- *)
 let ruop_of_sx x = match Sexp.list x with
@@ -117,7 +118,8 @@ let run_runack (input : Sexp.t) (impl : Sexp.t) : Verdict.t =
     kf = (if kf_redis_unack_reload fx ops then "kf_redis_unack_reload" else "-"); nontrivial = dup || restarts;
     cls = (if dup then "dup" else "nodup") ^ (if restarts then "_restart" else "_norestart");
     model = Sexp.L [Sexp.L (List.map (fun x -> match x with None -> Sexp.A "none" | Some b -> sx_bool b) mouts);
-                    Sexp.L (Sexp.A "journal" :: List.map sx_cmd mjournal)] }
+                    Sexp.L (Sexp.A "journal" :: List.map sx_cmd mjournal)];
+    why = (if runack_ok ops iouts then "" else "stored_id_not_reported_as_duplicate") }
 
 (* ---- rqueue ---- *)
 let rqop_of_sx x = match Sexp.list x with
@@ -166,4 +168,147 @@ let run_rqueue (input : Sexp.t) (impl : Sexp.t) : Verdict.t =
     cls = Printf.sprintf "max%d_drops%s_reads%s_replay%s%s%s%s" (int_of_nat max) (if drops = 0 then "0" else "some")
         (if reads = 0 then "0" else "some") (if replays = 0 then "0" else "some") (if restarts then "_restart" else "")
         (if panics then "_panic" else "") (if agree_outs && not agree_journal then "_journaldiff" else "");
-    model = Sexp.L [Sexp.L (List.map S_queue.sx_oout mouts); Sexp.L (Sexp.A "journal" :: List.map sx_cmd mjournal)] }
+    model = Sexp.L [Sexp.L (List.map S_queue.sx_oout mouts); Sexp.L (Sexp.A "journal" :: List.map sx_cmd mjournal)];
+    why = (if oracle then "" else kf) }
+
+(* ---- crash ---- *)
+let rxpkt_of_sx x = match Sexp.list x with
+  | [Sexp.A "connack"; sp; code] -> XConnack (bool_of_sx sp, n_of_sx code)
+  | Sexp.A "suback" :: pid :: codes -> XSuback (n_of_sx pid, List.map n_of_sx codes)
+  | [Sexp.A "unsuback"; pid] -> XUnsuback (n_of_sx pid)
+  | [Sexp.A "puback"; pid; code] -> XPuback (n_of_sx pid, n_of_sx code)
+  | [Sexp.A "pubrec"; pid; code] -> XPubrec (n_of_sx pid, n_of_sx code)
+  | [Sexp.A "pubrel"; pid] -> XPubrel (n_of_sx pid)
+  | [Sexp.A "pubcomp"; pid] -> XPubcomp (n_of_sx pid)
+  | [Sexp.A "publish"; dup; qos; t; pl; pid] -> XPublish (bool_of_sx dup, n_of_sx qos, bytes_of_sx t, bytes_of_sx pl, n_of_sx pid)
+  | _ -> XOther
+
+let crash_sub subid t = match Sexp.list t with
+  | [Sexp.A "t"; f; q; nl; rap; rh] ->
+    let (g, flt) = split_topic (bytes_of_sx f) in
+    { s_share = g; s_filter = flt; s_id = subid; s_qos = n_of_sx q; s_nl = bool_of_sx nl; s_rap = bool_of_sx rap; s_rh = n_of_sx rh }
+  | _ -> failwith "crash sub"
+
+let cstep_of_sx x = match Sexp.list x with
+  | [Sexp.A "connect"; c; clean; exp] -> SConnect (nat_of_sx c, bool_of_sx clean, n_of_sx exp)
+  | [Sexp.A ("close" | "disconnect"); c] -> SClose (nat_of_sx c)
+  | Sexp.A "subscribe" :: c :: pid :: subid :: ts -> SSubscribe (nat_of_sx c, n_of_sx pid, List.map (crash_sub (n_of_sx subid)) ts)
+  | Sexp.A "unsubscribe" :: c :: pid :: ts -> SUnsubscribe (nat_of_sx c, n_of_sx pid, List.map bytes_of_sx ts)
+  | [Sexp.A "publish"; c; q; pid; t; pl] -> SPublish (nat_of_sx c, n_of_sx q, n_of_sx pid, bytes_of_sx t, bytes_of_sx pl)
+  | [Sexp.A "pubrel"; c; pid] -> SPubrel (nat_of_sx c, n_of_sx pid)
+  | [Sexp.A "puback"; c; pid] -> SPuback (nat_of_sx c, n_of_sx pid)
+  | [Sexp.A "pubrec"; c; pid] -> SPubrec (nat_of_sx c, n_of_sx pid)
+  | [Sexp.A "pubcomp"; c; pid] -> SPubcomp (nat_of_sx c, n_of_sx pid)
+  | [Sexp.A "skipped"] -> SSkipped
+  | _ -> failwith ("crash step " ^ Sexp.to_string x)
+
+let ostep_of_sx x = match Sexp.list x with
+  | Sexp.A "st" :: start :: don :: sent :: rest ->
+    let rx = List.filter_map (fun r -> match Sexp.list r with
+        | [Sexp.A "rx"; c; pos; pkt] -> Some ((nat_of_sx c, nat_of_sx pos), rxpkt_of_sx pkt)
+        | Sexp.A "hang" :: _ -> failwith "hang in the first run"
+        | _ -> None) rest in
+    { os_start = nat_of_sx start; os_done = nat_of_sx don; os_step = cstep_of_sx sent; os_rx = rx }
+  | _ -> failwith "ostep"
+
+(* times are masked on both sides (presence of an expiry is kept); subscription identifiers
+   follow Go's map iteration order: sorted *)
+let mask_elem e =
+  let body = match e.e_body with
+    | QPub m -> QPub { m with m_subids = List.sort compare m.m_subids }
+    | b -> b in
+  { e_tag = N0; e_at = N0; e_expiry = (match e.e_expiry with None -> None | Some _ -> Some N0); e_body = body }
+let mask_blob = function BElem e -> BElem (mask_elem e) | b -> b
+let mask_cmd = function
+  | CRPush (k, v) -> CRPush (k, mask_blob v)
+  | CLRem (k, v) -> CLRem (k, mask_blob v)
+  | CLSet (k, i, v) -> CLSet (k, i, mask_blob v)
+  | c -> c
+let cmd_key = function CHSet (k, _) | CHDel (k, _) | CDel k | CRPush (k, _) | CLRem (k, _) | CLSet (k, _, _) -> k
+
+let rx_cmp = function
+  | XPublish (dup, q, _, pl, pid) -> XPublish (dup, q, [], pl, pid)
+  | p -> p
+
+let fail_name = function
+  | FStartup -> "startup" | FSession _ -> "session" | FSubExtra (_, _, true) -> "sub_after_unsuback" | FSubExtra (_, _, false) -> "sub_wrong"
+  | FSubMissing _ -> "sub_missing" | FSubForeign _ -> "sub_foreign_id" | FMsgLost _ -> "msg_lost" | FDupNotRecognised _ -> "dup_not_recognised"
+
+let run_crash (input : Sexp.t) (impl : Sexp.t) : Verdict.t =
+  (match Sexp.field_opt "harness_error" impl with Some [e] -> failwith ("harness: " ^ Sexp.to_string e) | _ -> ());
+  (match Sexp.field_opt "harness_panic" impl with Some [e] -> failwith ("harness panic: " ^ Sexp.to_string e) | _ -> ());
+  let names = List.map bytes_of_sx (Sexp.field "names" input) in
+  let steps = List.map ostep_of_sx (Sexp.field "steps" impl) in
+  let ijournal = List.map mask_cmd (List.map cmd_of_sx (Sexp.field "journal" impl)) in
+  let mj = model_journal fx names steps in
+  let mjournal = List.map mask_cmd (jcmds mj) in
+  (* (1) journal: per key, the same command sequence *)
+  let keys = List.sort_uniq compare (List.map cmd_key (ijournal @ mjournal)) in
+  let proj k j = List.filter (fun c -> cmd_key c = k) j in
+  let badkeys = List.filter (fun k -> proj k ijournal <> proj k mjournal) keys in
+  let agree_journal = badkeys = [] in
+  (* (2) every prefix *)
+  let q2 c pid = List.find_map (fun o -> match o.os_step with
+      | SPublish (c', q, pid', t, pl) when c' = c && pid' = pid && int_of_n q = 2 -> Some (t, pl) | _ -> None) steps in
+  let fails = ref [] and disagree = ref [] in
+  let nprefix = ref 0 in
+  List.iter (fun px ->
+      match Sexp.list px with
+      | Sexp.A "p" :: k :: rest ->
+        incr nprefix;
+        let k = int_of_sx k in
+        let f name = Sexp.field name (Sexp.L rest) in
+        let up = bool_of_sx (List.hd (f "up")) in
+        let sessions = if up then List.map bytes_of_sx (f "sessions") else [] in
+        let subs = if up then List.map (fun e -> match Sexp.list e with [c; s] -> (bytes_of_sx c, S_sub.sub_of_sx s) | _ -> failwith "psub") (f "subs") else [] in
+        let clients = if up then List.map (fun c -> match Sexp.list c with
+            | Sexp.A "c" :: _ :: r ->
+              let g name = Sexp.field name (Sexp.L r) in
+              (match Sexp.field_opt "hang" (Sexp.L r) with Some _ -> failwith "hang after restart" | None -> ());
+              { co_sp = (match g "sp" with [Sexp.A "none"] -> None | [b] -> Some (bool_of_sx b) | _ -> None);
+                co_rx = List.map rxpkt_of_sx (g "rx");
+                co_resend = List.map (fun r -> match Sexp.list r with [pid; n; a] -> ((n_of_sx pid, nat_of_sx n), bool_of_sx a) | _ -> failwith "resend") (g "resend") }
+            | _ -> failwith "pclient") (f "clients") else [] in
+        let p = { po_k = nat_of_int k; po_up = up; po_sessions = sessions; po_subs = subs; po_clients = clients } in
+        let fl = crash_prefix_fails names steps p in
+        fails := List.map (fun x -> (k, x)) fl @ !fails;
+        (* model prediction on the same store *)
+        let cmds = List.filteri (fun i _ -> i < k) ijournal in
+        let posts = List.mapi (fun ci co ->
+            let pids = List.filter_map (fun r -> match r with XPublish (false, q, _, _, pid) when int_of_n q > 0 -> Some pid | _ -> None) co.co_rx in
+            let res = List.map (fun ((pid, _), _) -> match q2 (nat_of_int ci) pid with Some (t, pl) -> ((pid, t), pl) | None -> failwith "resend of unknown publish") co.co_resend in
+            (pids, res)) clients in
+        let posts = if up then posts else List.map (fun _ -> ([], [])) names in
+        (match model_prefix fx names cmds posts with
+         | None -> if up then disagree := (k, "model: start-up fails") :: !disagree
+         | Some ((msess, msubs), mcl) ->
+           if not up then disagree := (k, "impl: start-up failed") :: !disagree
+           else begin
+             let su l = List.sort_uniq compare l in
+             if su msess <> su sessions then disagree := (k, "sessions") :: !disagree;
+             if List.sort compare msubs <> List.sort compare subs then disagree := (k, "subs") :: !disagree;
+             if List.length mcl <> List.length clients then disagree := (k, "clients") :: !disagree
+             else List.iteri (fun ci (((msp, mrx), mres), co) ->
+                 if msp <> co.co_sp then disagree := (k, Printf.sprintf "sp%d" ci) :: !disagree;
+                 if List.map rx_cmp mrx <> List.map rx_cmp co.co_rx then disagree := (k, Printf.sprintf "rx%d" ci) :: !disagree;
+                 if mres <> co.co_resend then disagree := (k, Printf.sprintf "resend%d" ci) :: !disagree)
+                 (List.combine mcl clients)
+           end)
+      | _ -> failwith "prefix") (Sexp.field "prefixes" impl);
+  let agree = agree_journal && !disagree = [] in
+  let oracle = !fails = [] in
+  let kinds = List.sort_uniq compare (List.map (fun (_, x) -> explain fx names x) !fails) in
+  let kf = if !fails = [] then "-" else if List.mem KFNone kinds then "-"
+    else if List.mem KFHdel kinds then "kf_redis_hdel_slice" else if List.mem KFTrim kinds then "kf_redis_trimleft" else "kf_redis_unack_reload" in
+  let failnames = List.sort_uniq compare (List.map (fun (_, x) -> fail_name x) !fails) in
+  let nsub = List.length (List.filter (fun o -> match o.os_step with SSubscribe _ -> true | _ -> false) steps) in
+  let ndeliv = List.length (List.filter (fun c -> match c with CRPush _ -> true | _ -> false) ijournal) in
+  { Verdict.agree; oracle; kf;
+    nontrivial = List.length ijournal >= 10 && nsub > 0 && ndeliv > 0;
+    cls = Printf.sprintf "j%s_sub%s_deliv%s_%s" (if List.length ijournal < 25 then "lt25" else if List.length ijournal < 50 then "lt50" else "ge50")
+        (if nsub = 0 then "0" else "some") (if ndeliv = 0 then "0" else "some") (if failnames = [] then "ok" else String.concat "+" failnames);
+    model = Sexp.L [Sexp.L (Sexp.A "journal" :: List.map sx_cmd mjournal);
+                    Sexp.L (Sexp.A "journal_keys_differ" :: List.map sx_bytes badkeys);
+                    Sexp.L (Sexp.A "prefix_disagree" :: List.map (fun (k, w) -> Sexp.L [sx_int k; Sexp.A w]) (List.rev !disagree));
+                    Sexp.L (Sexp.A "oracle_fails" :: List.map (fun (k, x) -> Sexp.L [sx_int k; Sexp.A (fail_name x)]) (List.rev !fails))];
+    why = (match List.rev !fails with [] -> "" | (k, x) :: _ -> Printf.sprintf "prefix%d:%s(%s)" k (fail_name x) (String.concat "+" failnames)) }
